@@ -23,7 +23,6 @@ Proof.
     apply filter_In in Hin as (Hin & _). apply find_node_none in Fd. apply Fd. apply in_map_iff. now exists (p, m).
 Qed.
 
-Definition start (s : pset) (k : N) : pset := with_msgs (with_pending s k) [].
 
 Lemma H_start b c0 s k : H b c0 s -> H b (connected_set s) (start s k).
 Proof.
@@ -39,7 +38,7 @@ Qed.
 
 (* every handler from a good state *)
 Lemma wp_run_op b o s k :
-  Inv b s -> op_wf o -> (b = true -> guard_unreserve s o = false) ->
+  Inv b s -> op_wf o -> (b = true -> guard_unreserve s k o = false) ->
   wp (run_op fixed o)
      (fun _ s' => H b (connected_set s) s' /\ F0 s s' /\
                   match o with
@@ -63,15 +62,17 @@ Proof.
     unfold guard_unreserve in GU. change (ronly (start s k)) with (ronly s) in RO. rewrite RO in GU.
     change (reserved (start s k)) with (reserved s) in MR. rewrite MR in GU. cbn in GU. exact GU.
   - apply GEN. apply wp_set_reserved; [exact HS|].
-    intros Hb RO. specialize (GU Hb). unfold guard_unreserve in GU.
+    intros Hb RO s1 IN q Hq MR. specialize (GU Hb). unfold guard_unreserve in GU.
     change (ronly (start s k)) with (ronly s) in RO. rewrite RO in GU. cbv zeta in GU. cbn [negb andb] in GU.
-    change (reserved (start s k)) with (reserved s).
-    destruct (filter (fun p => negb (memN p ps)) (reserved s)) as [|r0 rs] eqn:REM; [now left|right].
-    cbn [negb andb] in GU.
-    destruct (filter (fun p => negb (memN p (reserved s))) ps) as [|i0 ins] eqn:INS; cbn [negb orb] in GU; [|discriminate GU].
-    split; [reflexivity|]. intros p Hp. change (at_capacity (start s k) p) with (at_capacity s p).
-    destruct (at_capacity s p) eqn:AC; [|reflexivity].
-    assert (X : existsb (at_capacity s) (r0 :: rs) = true) by (apply existsb_exists; exists p; split; assumption).
+    change (reserved (start s k)) with (reserved s) in IN, Hq.
+    destruct (at_capacity s1 q) eqn:AC; [|reflexivity]. exfalso.
+    assert (X : existsb (fun r => match r with
+                      | Ret None s1 => existsb (fun q => memN q (reserved s1) && at_capacity s1 q)
+                                         (filter (fun p => negb (memN p ps)) (reserved s))
+                      | _ => false end)
+                  (add_reserved_peers (filter (fun p => negb (memN p (reserved s))) ps) (start s k)) = true).
+    { apply existsb_exists. exists (Ret None s1). split; [exact IN|].
+      apply existsb_exists. exists q. split; [exact Hq|]. now rewrite MR, AC. }
     congruence.
   - eapply wp_conseq. apply (wp_report b (connected_set s) delta ps (start s k) HS WF).
     intros e s' ((H1 & F1) & R1). split; [exact H1|]. split; [exact (F0_trans _ _ _ FS F1)|].
@@ -119,7 +120,7 @@ Proof.
 Qed.
 
 Theorem step_sound b s k o :
-  Inv b s -> op_wf o -> (b = true -> guard_unreserve s o = false) ->
+  Inv b s -> op_wf o -> (b = true -> guard_unreserve s k o = false) ->
   forall r, In r (step fixed s k o) ->
   exists e s', r = Ret e s' /\ Inv b s' /\ check_core s k o s' = true /\
                max_in s' = max_in s /\ max_out s' = max_out s /\ ronly s' = ronly s /\
